@@ -11,6 +11,8 @@ import (
 	"encoding/hex"
 	"errors"
 	"fmt"
+	"hash/fnv"
+	"io"
 	"runtime"
 	"runtime/metrics"
 	"sync/atomic"
@@ -50,6 +52,61 @@ func direction(fromClient bool) proto.Direction {
 	return proto.ClientBound
 }
 
+// trickleReader is what the Decoder sits on in production, reduced to its contract: a Read hands out at most
+// `max` bytes however many are asked for (a bufio.Reader over a socket, a cipher.StreamReader over that), and
+// the last bytes may arrive together with io.EOF.
+type trickleReader struct {
+	b   []byte
+	pos int
+	max int
+}
+
+func (t *trickleReader) Read(p []byte) (int, error) {
+	if len(p) == 0 {
+		return 0, nil
+	}
+	if t.pos >= len(t.b) {
+		return 0, io.EOF
+	}
+	n := min(t.max, len(p), len(t.b)-t.pos)
+	copy(p, t.b[t.pos:t.pos+n])
+	t.pos += n
+	if t.pos == len(t.b) {
+		return n, io.EOF
+	}
+	return n, nil
+}
+
+// reader variants: 0 = bytes.Reader handed to NewDecoder; 1 = trickling reader handed to NewDecoder;
+// 2 = trickling reader installed with SetReader (what EnableEncryption does)
+var readerVariants = []string{"bytes.Reader", "trickle", "trickle-via-SetReader"}
+
+func trickle(stream []byte) *trickleReader {
+	max := 1
+	if len(stream) > 8192 {
+		max = 1021 // MiB-sized streams: byte-wise delivery would only repeat the same short reads a million times
+	}
+	return &trickleReader{b: stream, max: max}
+}
+
+func newDecoderOn(stream []byte, cfg refframe.Config, variant int) *Decoder {
+	var d *Decoder
+	switch variant {
+	case 0:
+		d = NewDecoder(bytes.NewReader(stream), direction(cfg.FromClient), logr.Discard())
+	case 1:
+		d = NewDecoder(trickle(stream), direction(cfg.FromClient), logr.Discard())
+	default:
+		d = NewDecoder(bytes.NewReader(nil), direction(cfg.FromClient), logr.Discard())
+		d.SetReader(trickle(stream))
+	}
+	d.SetState(emptyRegistry)
+	if cfg.Compression {
+		d.SetCompressionThreshold(cfg.Threshold)
+	}
+	return d
+}
+
 func newDecoder(stream []byte, cfg refframe.Config) *Decoder {
 	d := NewDecoder(bytes.NewReader(stream), direction(cfg.FromClient), logr.Discard())
 	d.SetState(emptyRegistry)
@@ -73,7 +130,11 @@ func heapAllocs() uint64 {
 
 // runFrameLayer drives Decoder.readPayload until it errors.
 func runFrameLayer(stream []byte, cfg refframe.Config, measure int) (o gateOut) {
-	d := newDecoder(stream, cfg)
+	return runFrameLayerOn(stream, cfg, measure, 0)
+}
+
+func runFrameLayerOn(stream []byte, cfg refframe.Config, measure int, variant int) (o gateOut) {
+	d := newDecoderOn(stream, cfg, variant)
 	var before uint64
 	switch measure {
 	case measurePrecise:
@@ -249,6 +310,14 @@ func (c *checker) evalCase(cs *caseSpec) {
 					a.alloc, ref.Budget, allocSlack, cfgString(cfg), cs.String(), short(stream), ref.End, ref.Tag, ref.Reason), cs)
 		}
 	}
+
+	// the same stream arriving in short reads (alternating between the two ways a reader gets installed)
+	hv := fnv.New32a()
+	hv.Write([]byte(cfgString(cfg) + cs.String()))
+	variant := 1 + int(hv.Sum32()>>7&1) // a function of the case alone, so that a replay takes the same one
+	c.r.Class("reader:" + readerVariants[variant])
+	t := runFrameLayerOn(stream, cfg, measureNone, variant)
+	c.compare("readPayload/"+readerVariants[variant], cs, stream, &ref, &t, len(ref.Payloads))
 
 	// public seam: compare up to the first payload that has no parseable packet id (packet layer, not frame layer)
 	upTo := len(ref.Payloads)
